@@ -249,3 +249,57 @@ Theorem machine_step_never_stuck : forall n e c,
   Machine.st (Machine.step_impl (Machine.run_impl n (Machine.init e))) = Machine.Stuck c -> c = Machine.STALE_C_FRAME.
 Proof. exact Progress.step_never_stuck_lemma. Qed.
 Print Assumptions machine_step_never_stuck.
+
+(** round 3 — the growth path of RESUMECC (sexp_restore_stack -> sexp_grow_stack allocates a NEW stack object): for the
+    opcode as repaired by fixes/C06-resumecc-reload-stack-after-growth.patch the theorem [callcc_resume_restores] holds
+    WITHOUT its no-growth premise: whatever the size of the stack the continuation is resumed on (e.g. the fresh
+    1024-word stack of another green thread), if the restore does not report out-of-stack the registers and every
+    word below the call/cc slot are the captured ones and the passed value sits in the slot *)
+Theorem callcc_resume_restores_grown : forall m kobj m1 saved m2 maxs junk m3,
+  1 <= StackModel.top m -> StackModel.top m + 4 <= length (stack m) ->
+  callcc m kobj = (m1, saved) ->
+  StackModel.top m2 + 2 <= length (stack m2) -> length (stack m2) <= maxs ->
+  resumecc_g m2 saved maxs junk = Some m3 ->
+    StackModel.top m3 = StackModel.top m /\ fp m3 = fp m /\ self m3 = self m /\ ip m3 = ip m /\
+    length (stack m2) <= length (stack m3) /\ StackModel.top m + 4 + 64 <= length (stack m3) /\
+    (forall i, i < StackModel.top m - 1 -> sref (stack m3) i = sref (stack m) i) /\
+    sref (stack m3) (StackModel.top m - 1) = sref (stack m2) (fp m2 - 1).
+Proof. exact callcc_resume_restores_grown_lemma. Qed.
+Print Assumptions callcc_resume_restores_grown.
+
+(** REFUTED for the opcode as pinned (vm.c:1320-1333 before the repair: the C local `stack` is not re-read after the
+    growth, fp/self/ip are taken from the OLD stack object): witness = a continuation captured at top 74 resumed on a
+    70-word stack.  Real binary: SIGSEGV at vm.c:1328 for a raw %call/cc continuation of a 3000-deep recursion invoked
+    from another green thread (notes/C06.md round 3) *)
+Theorem resumecc_stale_stack_refuted :
+  ~ (forall m kobj m1 saved m2 maxs junk m3,
+       1 <= StackModel.top m -> StackModel.top m + 4 <= length (stack m) -> callcc m kobj = (m1, saved) ->
+       StackModel.top m2 + 2 <= length (stack m2) -> length (stack m2) <= maxs ->
+       resumecc_stale m2 saved maxs junk = Some m3 ->
+       fp m3 = fp m /\ self m3 = self m /\ ip m3 = ip m).
+Proof. exact resumecc_stale_stack_refuted_lemma. Qed.
+Print Assumptions resumecc_stale_stack_refuted.
+
+(** round 3 — multiple values (lib/init-7.scm:756-770 %values / values / call-with-values, and continuation->procedure's
+    [(cont (%values res))]).  Premise [single_ordinary]: a SINGLE value passed is an ordinary object (not itself a
+    multiple-values object — chibi splices that one, theorem [values_single_tagged_spliced]; R7RS leaves it undefined) *)
+From ChibiV Require C06.ValuesModel C06.ValuesProofs.
+
+(** (call-with-values (lambda () (values v ...)) consumer) applies consumer to exactly v ... (zero, one or many) *)
+Theorem values_reach_consumer : forall ls,
+  ValuesProofs.single_ordinary ls -> ValuesModel.cwv_args (ValuesModel.values ls) = ls.
+Proof. exact ValuesProofs.values_reach_consumer_lemma. Qed.
+Print Assumptions values_reach_consumer.
+
+(** (call-with-values (lambda () (call/cc (lambda (k) ...))) consumer): calling the continuation procedure with the
+    arguments v ..., at once or on a later re-entry, applies consumer to exactly v ... *)
+Theorem values_through_continuation : forall res,
+  ValuesProofs.single_ordinary res -> ValuesModel.cwv_args (ValuesModel.cont_deliver res) = res.
+Proof. exact ValuesProofs.values_through_continuation_lemma. Qed.
+Print Assumptions values_through_continuation.
+
+Theorem values_single_tagged_spliced :
+  ValuesModel.cwv_args (ValuesModel.values [ValuesModel.MTagged [ValuesModel.MObj 1; ValuesModel.MObj 2]])
+  = [ValuesModel.MObj 1; ValuesModel.MObj 2].
+Proof. exact ValuesProofs.values_single_tagged_spliced_lemma. Qed.
+Print Assumptions values_single_tagged_spliced.
